@@ -76,6 +76,12 @@ func c05poison(c *core.Ctx) {
 				body := func() {
 					t := newTD()
 					p := t.connect("P", 0, 65535, false)
+					// a bystander that sees everything the broker publishes, wills included
+					b := t.connect("B", 0, 65535, false)
+					t.subscribe("B", "#", 1)
+					if vsched.Failed() {
+						return
+					}
 					e, err := t.w.Dial("E")
 					if err != nil {
 						vsched.Failf("harness: dial: %v", err)
@@ -92,6 +98,9 @@ func c05poison(c *core.Ctx) {
 						e.Send(&refcodec.Packet{Type: refcodec.DISCONNECT})
 					}
 					t.w.Settle()
+					if t.badStream() {
+						return
+					}
 					if stay == "stays" && !e.EOF && len(ans) > 0 && ans[0].Type == refcodec.CONNACK && ans[0].ReturnCode == 0 {
 						// an accepted connection with the victim's identifier that stays open: two
 						// live connections with one identifier are outside the property
@@ -120,6 +129,13 @@ func c05poison(c *core.Ctx) {
 					t.w.Settle()
 					if ps := publishesOn(v.Take(), "v/t"); len(ps) != 1 || string(ps[0].Payload) != "for the victim" {
 						vsched.Failf("the victim received %s on its subscription", Describe(ps))
+						return
+					}
+					if t.badStream() {
+						return
+					}
+					if ps := publishesOn(b.rc.Take(), "v/t"); len(ps) != 1 || string(ps[0].Payload) != "for the victim" || b.rc.EOF {
+						vsched.Failf("the bystander received %s on v/t (closed=%v)", Describe(ps), b.rc.EOF)
 						return
 					}
 					vsched.Logf("ok")
